@@ -7,21 +7,24 @@ Open Scope Z_scope.
 (* "every positive base, factor and cap" *)
 Definition positive_params (b : backoff) : Prop :=
   0 < base b /\ 0 < factor b /\ 0 < cap b.
-(* ... up to 2^40 ms (34 years): below that every value under the cap is an integer
-   float64 holds exactly and cap * 10^6 ns fits int64 (DESIGN.md 6.C19, D22) *)
-Definition bounds (b : backoff) : Prop :=
-  0 < base b <= 2 ^ 40 /\ 0 < factor b <= 2 ^ 40 /\ 0 < cap b <= 2 ^ 40.
+(* ... and a cap that a time.Duration can hold (at most max_ms = MaxInt64/10^6 ms, 292
+   years): needed only where a theorem says that the delay EQUALS min(cap, base*factor^n);
+   beyond it that number of ms is not a Duration and the code saturates at max_ms. *)
+Definition bounds (b : backoff) : Prop := positive_params b /\ cap b <= max_ms.
 
 Lemma bounds_positive b : bounds b -> positive_params b.
-Proof. unfold bounds, positive_params. lia. Qed.
+Proof. unfold bounds. tauto. Qed.
+
+(* the delay in ms: min(cap, base*factor^n), saturated at what a Duration can hold *)
+Definition sat (b : backoff) (n : Z) : Z := Z.min max_ms (expo b n).
 
 (* ---- the only facts used about the code's default constants; re-proved on every run
    against the regenerated Generated.v: fails exactly when a default is made
-   non-positive, larger than 2^40, or the default cap longer than three minutes ---- *)
+   non-positive, or the default cap longer than three minutes ---- *)
 Definition three_minutes : Z := 3 * 60 * 1000000000.   (* ns *)
 
 Lemma defaults_ok :
-  0 < default_base <= 2 ^ 40 /\ 0 < default_factor <= 2 ^ 40 /\ 0 < default_cap <= 2 ^ 40 /\
+  0 < default_base /\ 0 < default_factor /\ 0 < default_cap /\
   default_cap * 1000000 <= three_minutes.
 Proof. vm_compute. repeat split; try reflexivity; discriminate. Qed.
 
@@ -115,11 +118,23 @@ Qed.
 Lemma expo_factor_1 b n : factor b = 1 -> 0 <= n -> expo b n = Z.min (cap b) (base b).
 Proof. intros E Hn. unfold expo. rewrite E, Z.pow_1_l, Z.mul_1_r by lia. reflexivity. Qed.
 
-(* ---- the conversion to time.Duration does not wrap below 2^40 ms ---- *)
-Lemma to_duration_small d : 0 <= d <= 2 ^ 40 -> to_duration d = d * millisecond.
+Lemma sat_range b n : positive_params b -> 0 <= n -> 0 < sat b n <= max_ms /\ sat b n <= cap b.
 Proof.
-  intros Hd. unfold to_duration, wrap64, millisecond.
-  change (2 ^ 40) with 1099511627776 in Hd.
+  intros Hp Hn. pose proof (expo_range b n Hp Hn). unfold sat, max_ms in *. lia.
+Qed.
+
+Lemma sat_bounds b n : bounds b -> 0 <= n -> sat b n = expo b n.
+Proof.
+  intros (Hp & Hc) Hn. pose proof (expo_range b n Hp Hn). unfold sat. apply Z.min_r. lia.
+Qed.
+
+Lemma sat_mono b n m : positive_params b -> 0 <= n <= m -> sat b n <= sat b m.
+Proof. intros Hp Hnm. unfold sat. apply Z.min_le_compat_l. apply expo_mono; assumption. Qed.
+
+(* ---- the conversion to time.Duration does not wrap up to max_ms ---- *)
+Lemma to_duration_small d : 0 <= d <= max_ms -> to_duration d = d * millisecond.
+Proof.
+  intros Hd. unfold to_duration, wrap64, millisecond. unfold max_ms in Hd.
   change (2 ^ 63) with 9223372036854775808.
   change (2 ^ 64) with 18446744073709551616.
   rewrite Z.mod_small by lia. lia.
@@ -168,93 +183,94 @@ Qed.
 Lemma dfa_fst b n r : fst (dur_for_attempt b n r) = set_default b.
 Proof. reflexivity. Qed.
 
-(* no panic, and the delay, for positive parameters *)
+(* the delay for positive parameters: d = sat >= 1, no wrap *)
 Lemma dfa_out b n r :
   positive_params (set_default b) -> 0 <= n ->
   snd (dur_for_attempt b n r) =
-  Dur (if no_jitter b then to_duration (expo (set_default b) n)
-       else r mod to_duration (expo (set_default b) n)).
+  Dur (if no_jitter b then sat (set_default b) n * millisecond
+       else r mod (sat (set_default b) n * millisecond)).
 Proof.
   intros Hp Hn. unfold dur_for_attempt, delay; cbn [snd].
-  rewrite (expo_exec_spec _ n Hp Hn).
+  rewrite (expo_exec_spec _ n Hp Hn). fold (sat (set_default b) n).
   change (no_jitter (set_default b)) with (no_jitter b).
-  destruct (no_jitter b); [reflexivity|].
-  pose proof (expo_range _ n Hp Hn) as Hr.
-  destruct (expo (set_default b) n <=? 0) eqn:E; [apply Z.leb_le in E; lia|reflexivity].
+  pose proof (sat_range _ n Hp Hn) as (Hr & _).
+  destruct (sat (set_default b) n <? 1) eqn:E; [apply Z.ltb_lt in E; lia|].
+  rewrite to_duration_small by lia. destruct (no_jitter b); reflexivity.
 Qed.
+
+Lemma dfa_sat_nojitter b n r :
+  no_jitter b = true -> positive_params (set_default b) -> 0 <= n ->
+  snd (dur_for_attempt b n r) = Dur (sat (set_default b) n * millisecond).
+Proof. intros Hj Hp Hn. rewrite (dfa_out b n r Hp Hn), Hj. reflexivity. Qed.
 
 Lemma dfa_nojitter b n r :
   no_jitter b = true -> bounds (set_default b) -> 0 <= n ->
   snd (dur_for_attempt b n r) = Dur (expo (set_default b) n * millisecond).
 Proof.
-  intros Hj Hb Hn. pose proof (bounds_positive _ Hb) as Hp.
-  rewrite (dfa_out b n r Hp Hn), Hj.
-  pose proof (expo_range _ n Hp Hn). rewrite to_duration_small; [reflexivity|].
-  unfold bounds in Hb. lia.
+  intros Hj Hb Hn. rewrite (dfa_sat_nojitter b n r Hj (bounds_positive _ Hb) Hn).
+  rewrite (sat_bounds _ n Hb Hn). reflexivity.
 Qed.
 
-(* with jitter: a Duration in [0, min(cap, base*factor^n) ms), whatever the oracle says *)
+(* with jitter: a Duration in [0, delay without jitter), whatever the oracle says *)
 Lemma dfa_jitter b n r :
-  no_jitter b = false -> bounds (set_default b) -> 0 <= n ->
+  no_jitter b = false -> positive_params (set_default b) -> 0 <= n ->
   exists ns, snd (dur_for_attempt b n r) = Dur ns /\
-             0 <= ns < expo (set_default b) n * millisecond.
+             0 <= ns < sat (set_default b) n * millisecond.
 Proof.
-  intros Hj Hb Hn. pose proof (bounds_positive _ Hb) as Hp.
-  rewrite (dfa_out b n r Hp Hn), Hj.
-  pose proof (expo_range _ n Hp Hn) as Hr.
-  rewrite to_duration_small by (unfold bounds in Hb; lia).
-  exists (r mod (expo (set_default b) n * millisecond)). split; [reflexivity|].
+  intros Hj Hp Hn. rewrite (dfa_out b n r Hp Hn), Hj.
+  pose proof (sat_range _ n Hp Hn) as (Hr & _).
+  exists (r mod (sat (set_default b) n * millisecond)). split; [reflexivity|].
   apply Z.mod_pos_bound. unfold millisecond. lia.
 Qed.
 
 (* ... and every value of that range is produced by some oracle value *)
 Lemma dfa_jitter_onto b n ns :
-  no_jitter b = false -> bounds (set_default b) -> 0 <= n ->
-  0 <= ns < expo (set_default b) n * millisecond ->
+  no_jitter b = false -> positive_params (set_default b) -> 0 <= n ->
+  0 <= ns < sat (set_default b) n * millisecond ->
   snd (dur_for_attempt b n ns) = Dur ns.
 Proof.
-  intros Hj Hb Hn Hr. pose proof (bounds_positive _ Hb) as Hp.
-  rewrite (dfa_out b n ns Hp Hn), Hj.
-  pose proof (expo_range _ n Hp Hn) as He.
-  rewrite to_duration_small by (unfold bounds in Hb; lia).
+  intros Hj Hp Hn Hr. rewrite (dfa_out b n ns Hp Hn), Hj.
   rewrite Z.mod_small by exact Hr. reflexivity.
 Qed.
 
-(* the code's whole-millisecond draw rand.Intn(d) * time.Millisecond is one of them *)
+(* the code's whole-millisecond draw rand.Int63n(d) * time.Millisecond is one of them *)
 Lemma ms_draw_admissible b n k :
-  no_jitter b = false -> bounds (set_default b) -> 0 <= n ->
+  no_jitter b = false -> positive_params (set_default b) -> 0 <= n ->
   snd (dur_for_attempt b n (k * millisecond)) =
-  Dur ((k mod expo (set_default b) n) * millisecond).
+  Dur ((k mod sat (set_default b) n) * millisecond).
 Proof.
-  intros Hj Hb Hn. pose proof (bounds_positive _ Hb) as Hp.
-  rewrite (dfa_out b n _ Hp Hn), Hj.
-  pose proof (expo_range _ n Hp Hn) as He.
-  rewrite to_duration_small by (unfold bounds in Hb; lia).
+  intros Hj Hp Hn. rewrite (dfa_out b n _ Hp Hn), Hj.
+  pose proof (sat_range _ n Hp Hn) as (Hr & _).
   rewrite Z.mul_mod_distr_r by (unfold millisecond; lia). reflexivity.
 Qed.
 
+(* never negative, never above the cap, always a Duration (below 2^63 ns) *)
 Lemma dfa_bounded b n r :
-  bounds (set_default b) -> 0 <= n ->
+  positive_params (set_default b) -> 0 <= n ->
   exists ns, snd (dur_for_attempt b n r) = Dur ns /\
-             0 <= ns <= cap (set_default b) * millisecond.
+             0 <= ns <= cap (set_default b) * millisecond /\ ns < 2 ^ 63.
 Proof.
-  intros Hb Hn. pose proof (expo_range _ n (bounds_positive _ Hb) Hn) as Hr.
+  intros Hp Hn. pose proof (sat_range _ n Hp Hn) as (Hr & Hc).
+  assert (forall ns, 0 <= ns <= sat (set_default b) n * millisecond ->
+          0 <= ns <= cap (set_default b) * millisecond /\ ns < 2 ^ 63) as K.
+  { intros ns H. change (2 ^ 63) with 9223372036854775808.
+    unfold millisecond, max_ms in *. lia. }
   destruct (no_jitter b) eqn:Hj.
-  - exists (expo (set_default b) n * millisecond).
-    split; [apply dfa_nojitter; assumption|unfold millisecond; lia].
-  - destruct (dfa_jitter b n r Hj Hb Hn) as (ns & Hd & Hr'). exists ns.
-    split; [exact Hd|unfold millisecond in *; lia].
+  - exists (sat (set_default b) n * millisecond).
+    split; [apply dfa_sat_nojitter; assumption|apply K; unfold millisecond; lia].
+  - destruct (dfa_jitter b n r Hj Hp Hn) as (ns & Hd & Hr'). exists ns.
+    split; [exact Hd|apply K; lia].
 Qed.
 
 Lemma dfa_monotone b n m r1 r2 :
-  no_jitter b = true -> bounds (set_default b) -> 0 <= n <= m ->
+  no_jitter b = true -> positive_params (set_default b) -> 0 <= n <= m ->
   exists d1 d2, snd (dur_for_attempt b n r1) = Dur d1 /\
                 snd (dur_for_attempt b m r2) = Dur d2 /\ d1 <= d2.
 Proof.
-  intros Hj Hb Hnm.
-  exists (expo (set_default b) n * millisecond), (expo (set_default b) m * millisecond).
-  repeat split; try (apply dfa_nojitter; assumption || lia).
-  pose proof (expo_mono _ n m (bounds_positive _ Hb) Hnm). unfold millisecond. lia.
+  intros Hj Hp Hnm.
+  exists (sat (set_default b) n * millisecond), (sat (set_default b) m * millisecond).
+  repeat split; try (apply dfa_sat_nojitter; assumption || lia).
+  pose proof (sat_mono _ n m Hp Hnm). unfold millisecond. lia.
 Qed.
 
 (* ---- duration() / reset(): the stateful sequence is the per-attempt query ---- *)
@@ -262,15 +278,8 @@ Definition bump (b : backoff) : backoff :=
   mkBackoff (no_jitter b) (base b) (factor b) (cap b) (attempt b + 1).
 
 Lemma duration_spec b r :
-  positive_params (set_default b) -> 0 <= attempt b ->
   duration b r = (bump (set_default b), snd (dur_for_attempt b (attempt b) r)).
-Proof.
-  intros Hp Ha. unfold duration.
-  pose proof (dfa_out b (attempt b) r Hp Ha) as Ho.
-  destruct (dur_for_attempt b (attempt b) r) as [b' o] eqn:E.
-  assert (b' = set_default b) as -> by (pose proof (dfa_fst b (attempt b) r) as F; rewrite E in F; exact F).
-  cbn [snd] in Ho. rewrite Ho. reflexivity.
-Qed.
+Proof. reflexivity. Qed.
 
 Lemma params_bump_default b : params (set_default (bump (set_default b))) = params (set_default b).
 Proof.
@@ -299,8 +308,7 @@ Proof.
   - assert (positive_params (set_default b)) as Hpb
       by (eapply positive_params_eq; [symmetry; exact Hpar|exact Hp]).
     cbn [dur_seq length seq combine map fst snd].
-    rewrite (duration_spec b r Hpb Ha).
-    rewrite (dfa_out b (attempt b) r Hpb Ha).
+    rewrite (duration_spec b r).
     specialize (IH b0 (bump (set_default b)) (S j)).
     destruct IH as (IH1 & IH2 & IH3).
     + rewrite params_bump_default. exact Hpar.
@@ -309,8 +317,7 @@ Proof.
     + destruct (dur_seq (bump (set_default b)) rs) as [b2 os]. cbn [fst snd] in *.
       split; [|split; assumption].
       f_equal.
-      * rewrite <- (dfa_out b (attempt b) r Hpb Ha).
-        replace (attempt b + Z.of_nat j - Z.of_nat j) with (attempt b) by lia.
+      * replace (attempt b + Z.of_nat j - Z.of_nat j) with (attempt b) by lia.
         apply dfa_params. exact Hpar.
       * rewrite IH1. apply map_ext. intros [k r']. cbn [fst snd attempt bump set_default].
         f_equal. f_equal. lia.
@@ -363,7 +370,7 @@ Proof.
   { change (no_jitter (reset b1)) with (no_jitter (set_default (reset b1))).
     rewrite E0. exact Hj. }
   assert (bounds (set_default (reset b1))) as Hb1.
-  { unfold bounds in *. rewrite E1, E2, E3. exact Hb. }
+  { unfold bounds, positive_params in *. rewrite E1, E2, E3. exact Hb. }
   rewrite (dur_seq_nojitter rs (reset b1) Hj1 Hb1 eq_refl).
   apply map_ext. intros k. unfold expo. rewrite E1, E2, E3. reflexivity.
 Qed.
@@ -381,7 +388,7 @@ Proof.
   assert (no_jitter b = true) as Hj1.
   { change (no_jitter b) with (no_jitter (set_default b)). rewrite E0. exact Hj. }
   assert (bounds (set_default b)) as Hb1.
-  { unfold bounds in *. rewrite E1, E2, E3. exact Hb. }
+  { unfold bounds, positive_params in *. rewrite E1, E2, E3. exact Hb. }
   split.
   - rewrite (dur_seq_nojitter rs b Hj1 Hb1 Ha).
     apply map_ext. intros k. unfold expo. rewrite E1, E2, E3. reflexivity.
@@ -412,24 +419,33 @@ Lemma set_default_all_zero nj a :
   set_default (mkBackoff nj 0 0 0 a) = mkBackoff nj default_base default_factor default_cap a.
 Proof. reflexivity. Qed.
 
-Lemma bounds_all_zero nj a : bounds (set_default (mkBackoff nj 0 0 0 a)).
+Lemma positive_all_zero nj a : positive_params (set_default (mkBackoff nj 0 0 0 a)).
 Proof.
-  rewrite set_default_all_zero. unfold bounds; cbn [base factor cap].
+  rewrite set_default_all_zero. unfold positive_params; cbn [base factor cap].
   destruct defaults_ok as (H1 & H2 & H3 & _). auto.
 Qed.
 
+Lemma bounds_all_zero nj a : bounds (set_default (mkBackoff nj 0 0 0 a)).
+Proof.
+  split; [apply positive_all_zero|].
+  rewrite set_default_all_zero; cbn [cap].
+  destruct defaults_ok as (_ & _ & _ & H). unfold three_minutes, max_ms in *. lia.
+Qed.
+
+(* a cap left unset keeps every delay within three minutes *)
 Lemma default_cap_three_minutes b n r :
-  cap b = 0 -> bounds (set_default b) -> 0 <= n ->
+  cap b = 0 -> positive_params (set_default b) -> 0 <= n ->
   exists ns, snd (dur_for_attempt b n r) = Dur ns /\ 0 <= ns <= three_minutes.
 Proof.
-  intros Hc Hb Hn. destruct (dfa_bounded b n r Hb Hn) as (ns & Hd & Hr).
+  intros Hc Hp Hn. destruct (dfa_bounded b n r Hp Hn) as (ns & Hd & Hr & _).
   exists ns. split; [exact Hd|].
   assert (cap (set_default b) = default_cap) as E
     by (unfold set_default; cbn [cap]; rewrite Hc; reflexivity).
   rewrite E in Hr. destruct defaults_ok as (_ & _ & _ & H3). unfold millisecond in Hr. lia.
 Qed.
 
-(* ---- D22: outside the bound the int64 conversion wraps to a negative delay ---- *)
-Lemma huge_cap_negative :
-  snd (dur_for_attempt (fresh true 3 7 (2 ^ 62)) 15 0) = Dur (-4204059543880551616).
+(* ---- D22 repaired: beyond what a Duration can hold the delay saturates at max_ms ms
+   (it used to wrap to negative values) ---- *)
+Lemma huge_cap_saturates :
+  snd (dur_for_attempt (fresh true 3 7 (2 ^ 62)) 15 0) = Dur (max_ms * millisecond).
 Proof. vm_compute. reflexivity. Qed.
